@@ -88,3 +88,23 @@ Definition mgmt_ble (op : mgmt_op) (x : exchange) : res errclass mgmt_done :=
 Definition wrap (payload : bytes) : exchange := (0%N, frags 255 (S (length payload)) 1 payload).
 Definition ble_script (pieces : list bytes) (last : bytes) : list exchange :=
   map wrap (map (fun p => frags 255 (S (length p)) 12 p) pieces ++ [frags 255 (S (length last)) 13 last]).
+
+(* retry_bluetooth_connection_error(attempts) around add_pairing (2) / remove_pairing (10): an attempt whose
+   transaction ends in a link drop (None: BleakError after M1 was written) is repeated after a reconnect; the last
+   attempt's BleakError escapes (Crash); the first transaction that is answered decides the call *)
+Fixpoint mgmt_ble_retry (attempts : nat) (op : mgmt_op) (evs : list (option exchange)) : res errclass mgmt_done :=
+  match attempts with
+  | O => Crash
+  | S n =>
+      match evs with
+      | [] => Crash
+      | None :: rest => mgmt_ble_retry n op rest
+      | Some x :: _ => mgmt_ble op x
+      end
+  end.
+
+Definition ble_attempts (op : mgmt_op) : nat := match op with BleAdd => 2 | BleRemove => 10 | _ => 1 end.
+
+(* a history of calls on one pairing object: every call is decided by its own events only *)
+Definition mgmt_ble_history (calls : list (mgmt_op * list (option exchange))) : list (res errclass mgmt_done) :=
+  map (fun c => mgmt_ble_retry (ble_attempts (fst c)) (fst c) (snd c)) calls.
